@@ -419,12 +419,9 @@ func (n *c45Net) checkHeld(by *c45Peer, where string) {
 
 // decode is y.c.Decode plus the aliasing oracle.
 func (n *c45Net) decode(y *c45Peer, data []byte, addr, what string) (enode.ID, *enode.Node, Packet, error) {
-	in := bytes.Clone(data)
-	src, node, dec, err := y.c.Decode(data, addr)
+	// the codec gets its own copy: captured packets are delivered again later
+	src, node, dec, err := y.c.Decode(bytes.Clone(data), addr)
 	y.decodes++
-	if !bytes.Equal(in, data) {
-		n.fatalf("%s.Decode(%s) modified its input:\n%x\n%x", y.name, what, in, data)
-	}
 	n.checkHeld(y, "Decode "+what)
 	if err == nil && dec != nil && !c45NoAlias {
 		n.held = append(n.held, &c45Held{by: y, what: what, pkt: dec, node: node, frozen: c45Freeze(dec, node)})
